@@ -71,20 +71,18 @@ def check(repo: Repo, rep: Report) -> None:
     # E4
     deq = [s for s in sites(run) if isinstance(s.node, ast.Call) and dotted(s.node.func) == "self._queue.dequeue"]
     rep.require(deq, "dequeue in run")
+    due_defs = [x for x in sites(run) if isinstance(x.node, ast.Assign) and u(x.node.value) == "self._queue.peek().duetime"]
+    time_defs = [x for x in sites(run) if isinstance(x.node, ast.Assign) and u(x.node.value) == "self.now"]
+    due_names = {u(x.node.targets[0]) for x in due_defs}
     for s in deq:
         ok = False
+        tdefs = [x for x in time_defs if x.ctx.locks == s.ctx.locks and x.index < s.index]
+        tnames = {u(x.node.targets[0]) for x in tdefs}
         for e, p in s.ctx.guards:
-            if p and isinstance(e, ast.Compare) and len(e.ops) == 1:
-                l, r, op = u(e.left), u(e.comparators[0]), type(e.ops[0])
-                if (l, r) == ("due", "time") and op in (ast.LtE, ast.Lt):
-                    ok = True
-                if (l, r) == ("time", "due") and op in (ast.GtE, ast.Gt):
-                    ok = True
-        due_def = [x for x in sites(run) if isinstance(x.node, ast.Assign) and u(x.node.targets[0]) == "due"
-                   and u(x.node.value) == "self._queue.peek().duetime"]
-        time_def = [x for x in sites(run) if isinstance(x.node, ast.Assign) and u(x.node.targets[0]) == "time"
-                    and u(x.node.value) == "self.now" and x.ctx.locks == s.ctx.locks]
-        rep.ob("E4-due-guard", run, short(s.node), ok and bool(due_def) and bool(time_def) and cl.held(s),
+            r = compare_norm(e, lambda x: u(x) in due_names)
+            if p and r and r[0] in ("<=", "<") and u(r[1]) in tnames:
+                ok = True
+        rep.ob("E4-due-guard", run, short(s.node), ok and bool(due_defs) and bool(tdefs) and cl.held(s),
                "a timed item is dequeued without `due <= now` dominating (due = head of queue, now read in the same "
                "region): a timed action would run early")
     # E5
@@ -118,16 +116,20 @@ def check(repo: Repo, rep: Report) -> None:
     ok = all([app, enq, nt, en]) and all(cl.held(s) for s in app + enq + nt + en) and not nt[0].ctx.branch and not en[0].ctx.branch
     rep.ob("E7-fifo", sa, "append|enqueue, notify, ensure_thread in one region", ok,
            "a scheduled item is not enqueued, signalled and given a thread in one locked region (lost wake-up)")
+    dt_names = {u(x.node.targets[0]) for x in sites(sa) if isinstance(x.node, ast.Assign) and isinstance(x.node.value, ast.Call)
+                and dotted(x.node.value.func) == "self.to_datetime"}
     ok = False
     for s in app:
         for e, p in s.ctx.guards:
-            r = compare_norm(e, lambda x: u(x) == "dt")
+            r = compare_norm(e, lambda x: u(x) in dt_names)
             if p and r and r[0] in ("<=", "<") and u(r[1]) == "self.now":
                 ok = True
     rep.ob("E7-fifo", sa, "ready only if dt <= now", ok, "an item with a future due time is put on the immediate list")
+    ready_names = {u(x.node.target if isinstance(x.node, ast.AnnAssign) else x.node.targets[0]) for x in sites(run)
+                   if isinstance(x.node, (ast.Assign, ast.AnnAssign)) and isinstance(x.node.value, ast.Call) and call_name(x.node.value) == "deque"}
     for s in sites(run):
         n = s.node
-        if isinstance(n, ast.Call) and isinstance(n.func, ast.Attribute) and dotted(n.func.value) in ("ready", "self._ready_list"):
+        if isinstance(n, ast.Call) and isinstance(n.func, ast.Attribute) and dotted(n.func.value) in (ready_names | {"self._ready_list"}):
             rep.ob("E7-fifo", run, short(n), n.func.attr in ("append", "popleft"),
                    f"{short(n)} breaks submission order of immediately-due actions")
     # E8
